@@ -3,7 +3,8 @@
 spec      : spec/Lro.tla.  Part (a) generation-time resolution of operation_info (two-pass loading, relative names
             against the METHOD's package, rejection of empty type names, plain methods without the annotation);
             part (b) the run-time protocol Start -> Wrap -> Poll* -> Resolve | Fail over operation histories
-            NotDone^k . Done(response | error).  Ten spec mutants (`Mutant`) must be rejected by TLC.
+            NotDone^k . Done(response | error), for request fields named like the api-core modules (`operation`,
+            `operation_async`) passed in a request object or flattened.  Eleven spec mutants (`Mutant`) must be rejected by TLC.
 spec->code: TLC emits every resolution case (Lro.emit.res/all.cfg) and every history for carrier cases
             (Lro.emit.run.cfg) with the predicted observables.  Each resolution case is concretised (absapi), run
             through the REAL generator with the /repo hooks on (Method event: resolved type names; or the raised
@@ -26,13 +27,13 @@ OPS_YAML = {'type': 'google.api.Service', 'config_version': 3, 'name': 'lib.exam
             'http': {'rules': [{'selector': 'google.longrunning.Operations.GetOperation',
                                 'get': '/v1/{name=operations/*}'}]}}
 MSGS = {
-    'Req': [dict(name='name')],
+    'Req': [dict(name='name')],          # the field is renamed to case['fld'] by concretise()
     'Thing': [dict(name='n', type='int32')],
     'RunResponse': [dict(name='x'), dict(name='n', type='int32')],
     'RunMetadata': [dict(name='p', type='int32')],
 }
 DECOY = [dict(name='decoy')]
-MUTANTS = ['single_pass', 'prefix_qualified', 'decoy_package', 'accept_empty', 'sync_future', 'poll_when_done',
+MUTANTS = ['lose_argument', 'single_pass', 'prefix_qualified', 'decoy_package', 'accept_empty', 'sync_future', 'poll_when_done',
            'fresh_channel', 'wrong_name', 'drop_metadata_type', 'swallow_error']
 EVENT_FIELDS = dict(ev='', kind='', resp='', meta='', err='', rpc='', chan=0, name='', future='', type='', value=0,
                     mtype='', mvalue=0, code=0)
@@ -50,10 +51,13 @@ def concretise(case, experimental=False):
             continue            # google/protobuf/empty.proto: the installed descriptor (absapi std deps)
         fd = dict(name=file_name(f['id']), package=f['pkg'], target=bool(f['target']),
                   imports=[file_name(i) for i in f['imports'] if i != 'empty'],
-                  messages=[dict(name=m, fields=DECOY if f['id'] == 'dep' else MSGS[m]) for m in f['msgs']])
+                  messages=[dict(name=m, fields=DECOY if f['id'] == 'dep' else
+                                 [dict(name=case['fld'])] if m == 'Req' else MSGS[m]) for m in f['msgs']])
         if f['id'] == 'lr':
             m = dict(name='Run', **{'in': 'Req', 'out': case['outType'] if case['out'] == 'op' else 'Thing'},
-                     http=[dict(verb='post', uri='/v1/{name=things/*}:run', body='*')])
+                     http=[dict(verb='post', uri='/v1/{%s=things/*}:run' % case['fld'], body='*')])
+            if case['fld'] != 'name':
+                m['sigs'] = [case['fld']]      # flattened keyword argument named after the field
             if case['ann']:
                 m['lro'] = dict(resp=case['respName'], meta=case['metaName'])
             fd['services'] = [dict(name='Lr', methods=[m])]
@@ -67,11 +71,11 @@ def concretise(case, experimental=False):
 
 def res_key(c):
     return (f"ann={int(c['ann'])}/out={c['out']}/resp={c['rsp']['kind']}:{c['rsp']['site']}"
-            f"/meta={c['mta']['kind']}:{c['mta']['site']}")
+            f"/meta={c['mta']['kind']}:{c['mta']['site']}" + (f"/field={c['fld']}" if c['fld'] != 'name' else ''))
 
 
 def run_key(c, transport):
-    return f"{res_key(c)}/{c['mode']}/{transport}/k={c['k']}/{c['outcome']}/v={c['value']}/code={c['code']}"
+    return f"{res_key(c)}{'/flattened' if c['form'] == 'flattened' else ''}/{c['mode']}/{transport}/k={c['k']}/{c['outcome']}/v={c['value']}/code={c['code']}"
 
 
 def _init_worker():
@@ -105,8 +109,9 @@ def run_group(job):
             return obs
         root = gen.materialise(res, os.path.join(work, 'out'))
         payload = dict(api=api, module=MODULE, service='Lr', service_snake='lr', pkg=P,
-                       method=dict(name='Run', snake='run', req=P + '.Req', grpc_path=f'/{P}.Lr/Run',
-                                   http_verb='POST', http_path='/v1/things/1:run'),
+                       method=dict(name='Run', snake='run', req=P + '.Req', field=case['fld'], arg=case['arg'],
+                                   grpc_path=f'/{P}.Lr/Run', http_verb='POST', http_path=f"/v1/{case['arg']}:run",
+                                   http_arg_suffix=':run'),
                        kind=case['gen'], resp=case['resp'], meta=case['meta'], out=case['outType'],
                        opname=case['opname'], poll_prefix='/v1/', runs=runs)
         ok, out, err = gen.run_driver('harness.drivers.lro', root, payload, timeout=900)
@@ -165,8 +170,9 @@ def compare_run(case, events):
     if bad:
         diffs.append('unexpected ' + '; '.join(f"{e['ev']}: {e.get('detail') or e.get('rpc')}" for e in bad[:3]))
     starts = [e for e in events if e['ev'] == 'start']
-    if len(starts) != case['starts'] or any(e['rpc'] != 'Run' or e['chan'] != 1 for e in starts):
-        diffs.append(f"calls to the RPC {[(e['rpc'], e['chan']) for e in starts]} != predicted {case['starts']} on channel 1")
+    if len(starts) != case['starts'] or any((e['rpc'], e['chan'], e['name']) != ('Run', 1, case['arg']) for e in starts):
+        diffs.append(f"calls to the RPC {[(e['rpc'], e['chan'], e['name']) for e in starts]} != predicted "
+                     f"{case['starts']} x ('Run', 1, '{case['arg']}')")
     polls = [dict(rpc=e['rpc'], chan=e['chan'], name=e['name']) for e in events if e['ev'] == 'poll']
     if polls != case['polls']:
         diffs.append(f"polls {polls} != predicted {case['polls']}")
@@ -258,8 +264,8 @@ def main(chk, args):
                     if c['mode'] == 'asyncio' and tr == 'rest':
                         continue               # rest_asyncio is experimental: carrier cases only
                     rid = f'{i}:{tr}'
-                    runs.append(dict(id=rid, mode=c['mode'], transport=tr, k=c['k'], outcome=c['outcome'],
-                                     value=c['value'], code=c['code']))
+                    runs.append(dict(id=rid, mode=c['mode'], transport=tr, form=c['form'], k=c['k'],
+                                     outcome=c['outcome'], value=c['value'], code=c['code']))
                     expect[(k, rid)] = (c, tr)
         jobs.append(dict(gid=k, case=c0, runs=runs, experimental=False))
     cgroups = {}
@@ -276,8 +282,8 @@ def main(chk, args):
                 seen_plain.add((c['mode'], c['value']))
             for tr in ('grpc', 'rest'):
                 rid = f'{i}:{tr}'
-                runs.append(dict(id=rid, mode=c['mode'], transport=tr, k=c['k'], outcome=c['outcome'],
-                                 value=c['value'], code=c['code']))
+                runs.append(dict(id=rid, mode=c['mode'], transport=tr, form=c['form'], k=c['k'],
+                                 outcome=c['outcome'], value=c['value'], code=c['code']))
                 expect[('carrier:' + k, rid)] = (c, tr)
         jobs.append(dict(gid='carrier:' + k, case=cs[0], runs=runs, experimental=True))
     # 3. run the real generator and the emitted libraries
@@ -302,7 +308,7 @@ def main(chk, args):
             # a driver that dies is a harness problem, not a verdict
             raise core.MachineryError(f"lro driver failed for {obs['gid']}:\n" + obs['driver_error'])
         g = gen_event(obs)
-        cdict = dict(ann=c0['ann'], out=c0['out'], rsp=c0['rsp'], mta=c0['mta'])
+        cdict = dict(ann=c0['ann'], out=c0['out'], rsp=c0['rsp'], mta=c0['mta'], fld=c0['fld'], form=c0['form'])
         if not job['runs'] or obs['gen'] == 'fail':
             traces.append(dict(c=cdict, h=dict(k=c0['k'], outcome=c0['outcome'], value=c0['value'], code=c0['code']),
                                mode=c0['mode'], events=[g]))
@@ -319,7 +325,8 @@ def main(chk, args):
             if d2:
                 chk.violation(rkey, '; '.join(d2), dict(case=c, transport=tr, api=concretise(c0, job['experimental']),
                                                         events=run['events'], error=run.get('error')))
-            traces.append(dict(c=cdict, h=dict(k=c['k'], outcome=c['outcome'], value=c['value'], code=c['code']),
+            traces.append(dict(c=dict(cdict, form=c['form']),
+                               h=dict(k=c['k'], outcome=c['outcome'], value=c['value'], code=c['code']),
                                mode=c['mode'], events=[g] + [ev(**e) for e in run['events']]))
             tmeta.append((rkey, c, run))
     # 5. code -> spec: batched trace validation
@@ -335,7 +342,8 @@ def main(chk, args):
     chk.rule = ('cases = resolution cases enumerated by TLC (annotation x output x {relative, fully-qualified, empty} x '
                 '{same file, imported, not imported before/after the service file, google.protobuf.Empty} for response and '
                 'metadata), each generated by the real generator; runs = operation histories NotDone^k.Done(response|error), '
-                'k in 0..3, x {sync, asyncio} x {grpc, rest} executed against the emitted library; every executed '
+                'k in 0..3, x {sync, asyncio} x {grpc, rest} executed against the emitted library; carrier cases also x request '
+                'field name {name, operation, operation_async} x call form {request object, flattened keyword}; every executed '
                 'generation and every run is non-trivial; distinct by (resolution case) resp. (case, mode, transport, history)')
     for t in traces[:1] + traces[len(traces) // 2:len(traces) // 2 + 2] + traces[-2:]:
         chk.sample(dict(c=t['c'], h=t['h'], mode=t['mode'],
